@@ -53,6 +53,8 @@ class DtNS:
         return self._S.eye(n, self._map(dtype))
 
     def __getattr__(self, k):
+        if k.startswith("_"):
+            raise AttributeError(k)
         return getattr(self._S, k)
 
 
@@ -91,6 +93,35 @@ def allowed(dt, single):
     return dt in (("float32", "complex64") if single else ("float64", "complex128"))
 
 
+# documented exception "index / count outputs are integers": results that are indices whatever dtype the harness hands them in
+INDEX_OUTPUTS = [("sample_khatri_rao", ("result[1]", "result[2]"))]
+
+
+class DtOb(GOb):
+    """the soundness monitor of a dtype obligation compares the dtype tags of the symbolic run with the dtypes numpy produces natively"""
+
+    def _monitor_at(self, path, env):
+        import copy
+        from ..oblig import _native_backend, NumNS, concretize_args
+        res, prims, pairs, _checks, path_inputs = path.value
+        sym_sig = [l for l, _, _ in pairs if l.startswith("dtype signature ")]
+        with _native_backend(self.tenalg):
+            G.reset_execution()
+            S = NumNS(env, np.random.RandomState(12345))
+            I = concretize_args(self.setup(S), env)
+            I0 = copy.deepcopy(I)
+            nres = self.call(I)
+            nat_sig = [l for l, _, _ in self.post(S, I0, nres) if l.startswith("dtype signature ")]
+        if sym_sig != nat_sig:
+            s_, n_ = set(sym_sig[0].split()[2:]), set(nat_sig[0].split()[2:])
+            common = {x.split(":")[0] for x in s_} & {x.split(":")[0] for x in n_}
+            diff = sorted(x for x in (s_ ^ n_) if x.split(":")[0] in common)
+            if diff:
+                return False, f"dtype tags of the symbolic run disagree with numpy's at {env}: {diff[:6]}"
+            return True, f"monitor ok at {env} on the {len(common)} arrays present in both runs"
+        return True, f"monitor ok at {env}"
+
+
 def wrap(base, single):
     tag = "float32" if single else "float64"
     def setup(S):
@@ -99,16 +130,22 @@ def wrap(base, single):
     def post(S, I, res):
         out = []
         n = 0
+        sig = []
         for path, a in leaves(res):
+            if any(f in base.function and path.startswith(pre) for f, pres in INDEX_OUTPUTS for pre in pres):
+                continue
             n += 1
             dt = dtype_name(a)
+            sig.append(f"{path}:{dt}")
             if not allowed(dt, single):
                 out.append((f"{path} has dtype {dt}, the inputs are {tag}", 0, 1))
+        sig.sort()
         out.append((f"{n} arrays in the result, all in the {tag} context", 1, 1))
+        out.append(("dtype signature " + " ".join(sig), 1, 1))
         if n == 0:
             out.append(("the result contains no array (vacuous)", 0, 1))
         return out
-    ob = GOb(PID, f"{PID}/{tag}/" + base.name.split("/", 1)[1], base.function, setup, base.call, post, tenalg=base.tenalg, assumptions=base.assumptions,
+    ob = DtOb(PID, f"{PID}/{tag}/" + base.name.split("/", 1)[1], base.function, setup, base.call, post, tenalg=base.tenalg, assumptions=base.assumptions,
              side_nonzero=base.side_nonzero, instance=dict(base.instance, dtype=tag, source=base.pid), clause=f"every array of the result carries the {tag} context",
              forall=list(base.forall) + ["paths"], enumerated=list(base.enumerated) + ["dtype"])
     return ob
@@ -138,7 +175,18 @@ def obligations(tier):
             obs.append(wrap(ob, True))
             if tier != "quick":
                 obs.append(wrap(ob, False))
+    obs.append(bounded_obligation())
     return obs
+
+
+def bounded_obligation():
+    from .c09 import BoundedOb
+    from . import c18_native
+    def fn():
+        del c18_native.SKIPPED[:]
+        return c18_native.run()
+    return BoundedOb(f"{PID}/bounded/native dtype survey of the public entry points", "tensorly (decompositions, solvers, proximal operators, svd_interface, random, conversions, regressors, metrics)", fn,
+                     dict(dtypes="float32/float64/complex128", entry_points="~110 per dtype"), "one seeded call per entry point / option set and dtype; entry points that raise for a dtype are skipped", pid=PID)
 
 
 def canaries(tier):
